@@ -23,12 +23,12 @@ import (
 
 // Verdict is what a property's decide function returns for one case.
 type Verdict struct {
-	OK         bool     // property held on this case
-	Signature  string   // root-cause signature when !OK (matched against known findings)
-	Detail     string   // expected vs observed, human readable
-	NonTrivial bool     // the case is non-trivial by the property's stated rule
-	Labels     []string // classification labels (distribution goes to the evidence)
-	Discard    bool     // generator self-check failed: case is not counted and not judged
+	OK         bool           // property held on this case
+	Signature  string         // root-cause signature when !OK (matched against known findings)
+	Detail     string         // expected vs observed, human readable
+	NonTrivial bool           // the case is non-trivial by the property's stated rule
+	Labels     []string       // classification labels (distribution goes to the evidence)
+	Discard    bool           // generator self-check failed: case is not counted and not judged
 	Obs        map[string]int // extra observation counters (not verdicts)
 }
 
